@@ -661,6 +661,10 @@ def check(res, tier, seed):
                 res.violation("bcast-stress", "pending-call table under the real scheduler: %s (a call registered this way can never be woken: it hangs / its entry is retained)" % sr["violates"],
                               dict(kind="bcast-stress", result=sr))
         locksets.atomicity_obligation(res, monitor_hits)
+    if pid in ("C05", "C14", "C16"):
+        # regenerated from the sources (go/ast): the critical sections obey the discipline of Regions.v
+        from . import regions
+        regions.obligation(res, wd, monitor_hits)
     if getattr(res, "proof_broken", None):
         why, log = res.proof_broken
         res.violation("proof-broken", "proof obligations of %s no longer check: %s" % (pid, why),
